@@ -1,9 +1,8 @@
 (* Properties_C18.v — C18: utils::isequal / utils::isclose as comparison oracles.  Statements only.
    isequal (after the fix "different length / dimension / shape -> false") IS structural equality, for every
    shape and every nesting of optionals / eithers / tuples, in both builds, and never aborts or reads outside
-   an operand.  isclose still checks shapes by assert only: with asserts it answers the reference or aborts,
-   without them it never reads outside but answers wrongly on different shapes (refuted below); its one-sided
-   either arms drop eps (refuted below). *)
+   an operand.  isclose (after the fixes "false for different dimension or shape", "either arms honour eps",
+   "scalar difference in the common type") IS structural closeness in the same sense. *)
 From NM Require Import Base Index Compare CompareProofs.
 Local Open Scope Z_scope.
 
@@ -58,49 +57,48 @@ Theorem C18_isequal_maybe_either_tuple : forall nd a b xs ys,
 Proof. intros. repeat split. Qed.
 Print Assumptions C18_isequal_maybe_either_tuple.
 
-(* isclose: equal shapes -> exactly "all differences below eps", both builds *)
+(* isclose: the answer is "same structure, same shapes, all |a-b| < eps", or the pairing does not compile *)
+Theorem C18_isclose_is_structural_closeness : forall nd eps x y,
+  wfb x = true -> wfb y = true -> pair_dom x y = true ->
+  (isclose nd eps x y = Ret (spec_close eps x y) \/ isclose nd eps x y = Reject) /\
+  (isclose_d nd eps x y = Ret (spec_close eps x y) \/ isclose_d nd eps x y = Reject).
+Proof. intros nd eps x y Wx Wy D. split; [exact (isclose_total nd eps x y Wx Wy D) | exact (isclose_d_total nd eps x y Wx Wy D)]. Qed.
+Print Assumptions C18_isclose_is_structural_closeness.
+
+Theorem C18_isclose_never_aborts_or_reads_outside : forall nd eps x y,
+  wfb x = true -> wfb y = true -> pair_dom x y = true ->
+  isclose nd eps x y <> UB /\ isclose nd eps x y <> Abort /\ isclose_d nd eps x y <> UB /\ isclose_d nd eps x y <> Abort.
+Proof. exact isclose_safe. Qed.
+Print Assumptions C18_isclose_never_aborts_or_reads_outside.
+
+Theorem C18_isclose_reflexive_symmetric : forall nd eps x y b, wfb x = true -> wfb y = true -> pair_dom x y = true ->
+  (0 < eps -> pair_dom x x = true -> isclose nd eps x x = Ret true \/ isclose nd eps x x = Reject) /\
+  (isclose nd eps x y = Ret b -> isclose nd eps y x = Ret b \/ isclose nd eps y x = Reject).
+Proof.
+  intros nd eps x y b Wx Wy D. split.
+  - intros He Dx. exact (isclose_refl nd eps x He Wx Dx).
+  - exact (isclose_sym nd eps x y b Wx Wy D).
+Qed.
+Print Assumptions C18_isclose_reflexive_symmetric.
+
+Theorem C18_isclose_different_shape_is_false : forall nd eps s d s' d',
+  wfb (Arr s d) = true -> wfb (Arr s' d') = true -> s <> s' ->
+  isclose nd eps (Arr s d) (Arr s' d') = Ret false /\ isclose_d nd eps (Arr s d) (Arr s' d') = Ret false.
+Proof. exact isclose_shape_mismatch. Qed.
+Print Assumptions C18_isclose_different_shape_is_false.
+
 Theorem C18_isclose_same_shape : forall nd eps s d d', wfb (Arr s d) = true -> wfb (Arr s d') = true ->
   isclose nd eps (Arr s d) (Arr s d') = Ret (all2 (close eps) d d').
 Proof. exact isclose_same_shape. Qed.
 Print Assumptions C18_isclose_same_shape.
-
-(* asserts enabled: the reference answer, or an abort; never a read outside *)
-Theorem C18_isclose_debug_on_domain : forall eps x y, wfb x = true -> wfb y = true -> close_dom eps x y ->
-  isclose false eps x y = Ret (spec_close eps x y) \/ isclose false eps x y = Reject \/ isclose false eps x y = Abort.
-Proof. exact isclose_debug_total. Qed.
-Print Assumptions C18_isclose_debug_on_domain.
-
-(* NDEBUG: whatever the shapes, isclose returns (the flat index is re-wrapped into each operand's own
-   extents, so every read stays inside its buffer); the value is the reference only on equal shapes *)
-Theorem C18_isclose_ndebug_reads_inside_partial : forall eps x y, wfb x = true -> wfb y = true -> close_dom eps x y ->
-  (exists b, isclose true eps x y = Ret b) \/ isclose true eps x y = Reject.
-Proof. exact isclose_ndebug_safe. Qed.
-Print Assumptions C18_isclose_ndebug_reads_inside_partial.
 
 Theorem C18_reference_symmetric : forall e x y,
   spec_equal x y = spec_equal y x /\ spec_close e x y = spec_close e y x.
 Proof. intros. split; [apply spec_equal_sym | apply spec_close_sym]. Qed.
 Print Assumptions C18_reference_symmetric.
 
-(* the full statement fails for isclose: same size, different shape -> true under NDEBUG, abort otherwise;
-   a shorter operand compared with a longer one -> true on the common prefix *)
-Theorem C18_isclose_shape_refuted : exists eps x y x',
-  wfb x = true /\ wfb y = true /\ wfb x' = true /\ noeither x = true /\ noeither y = true /\ noeither x' = true /\
-  spec_close eps x y = false /\ isclose true eps x y = Ret true /\ isclose false eps x y = Abort /\
-  spec_close eps x' y = false /\ isclose true eps x' y = Ret true.
-Proof.
-  exists 1, (Arr [2; 3] [0; 1; 2; 3; 4; 5]), (Arr [3; 2] [0; 1; 2; 3; 4; 5]), (Arr [2; 2] [0; 1; 2; 3]).
-  vm_compute. repeat split.
-Qed.
-Print Assumptions C18_isclose_shape_refuted.
-
-(* an either against a plain operand is compared with the default eps, not the caller's *)
-Theorem C18_isclose_either_eps_refuted : exists eps x y, forall nd,
-  wfb x = true /\ wfb y = true /\ spec_close eps x y = true /\ isclose nd eps x y = Ret false.
-Proof. exists 8, (ELeft (Arr [1] [0])), (Arr [1] [4]). intros []; vm_compute; repeat split. Qed.
-Print Assumptions C18_isclose_either_eps_refuted.
-
-(* integer operands where one side is unsigned: the subtraction wraps, closeness becomes order dependent *)
+(* record of the behaviour BEFORE the fix "scalar difference in the common type": with an unsigned operand the
+   subtraction wrapped and closeness was order dependent (the class stays listed until that fix is in /repo) *)
 Theorem C18_isclose_unsigned_refuted : exists eps a b,
   close eps a b = true /\ close_unsigned 64 eps a b = false /\ close_unsigned 64 eps b a = true.
 Proof. exists 5, 24, 28. vm_compute. repeat split. Qed.
@@ -119,7 +117,9 @@ Example C18_nonvacuous_2 :
   /\ isequal true (Idx KTup [2;3]) (Idx KArr [2;3;4]) = Reject.
 Proof. vm_compute. repeat split. Qed.
 Example C18_nonvacuous_3 :
-  close_dom 2 (MSome (Arr [2;2] [0;4;8;12])) (Arr [2;2] [1;4;8;11])
-  /\ isclose false 2 (MSome (Arr [2;2] [0;4;8;12])) (Arr [2;2] [1;4;8;11]) = Ret true
-  /\ isclose true 1 (MSome (Arr [2;2] [0;4;8;12])) (Arr [2;2] [1;4;8;11]) = Ret false.
-Proof. split; [left; split; reflexivity | vm_compute; split; reflexivity]. Qed.
+  isclose false 2 (MSome (Arr [2;2] [0;4;8;12])) (Arr [2;2] [1;4;8;11]) = Ret true
+  /\ isclose true 1 (MSome (Arr [2;2] [0;4;8;12])) (Arr [2;2] [1;4;8;11]) = Ret false
+  /\ isclose true 1 (Arr [2;3] [0;1;2;3;4;5]) (Arr [3;2] [0;1;2;3;4;5]) = Ret false
+  /\ isclose false 1 (Arr [2;2] [0;1;2;3]) (Arr [2;3] [0;1;2;3;4;5]) = Ret false
+  /\ isclose true 8 (ELeft (Arr [1] [0])) (Arr [1] [4]) = Ret true.
+Proof. vm_compute. repeat split. Qed.
